@@ -99,7 +99,7 @@ def fam_variants(nmax: int, *, batch: int = 2, cross: bool = False) -> Iterator[
 
 def fam_faults(nmin: int, nmax: int, *, max_faults: int = 1, batch: int = 2, kinds=('raise', 'died'),
                cofs=(True, False), perms: bool = False, reqs: str = 'subsets', types: str = 'TA',
-               pre: bool = False, fault_exc: str = 'boom') -> Iterator[Config]:
+               pre: bool = False, fault_exc: str = 'boom', bust=(False,)) -> Iterator[Config]:
     """DAG shapes x requested subsets x fault sets (size 1..max_faults) x fault
     kind x continue_on_failure; optionally all label permutations."""
     for n in range(nmin, nmax + 1):
@@ -123,9 +123,12 @@ def fam_faults(nmin: int, nmax: int, *, max_faults: int = 1, batch: int = 2, kin
                                 pres = all_subsets(clo) if pre else [()]
                                 for p in pres:
                                     for cof in cofs:
-                                        yield Config(spec=spec, requested=tuple((i, False) for i in req),
-                                                     precached=tuple(p), faults=faults, died=died, cof=cof, batch=batch,
-                                                     fault_exc=fault_exc)
+                                        for b in bust:
+                                            if b and not p:
+                                                continue
+                                            yield Config(spec=spec, requested=tuple((i, False) for i in req),
+                                                         precached=tuple(p), faults=faults, died=died, cof=cof, batch=batch,
+                                                         fault_exc=fault_exc, bust_cache=b)
 
 
 def fam_limits(nmin: int, nmax: int, *, batch: int = 2, tnames=('TA', 'TB', 'TC'), faults: bool = False,
@@ -151,8 +154,52 @@ def fam_limits(nmin: int, nmax: int, *, batch: int = 2, tnames=('TA', 'TB', 'TC'
                         yield Config(spec=spec, requested=req, batch=batch, died=(f,), stutter=stutter)
 
 
+def fam_limits_special(nmax: int = 3, *, batch: int = 2, tnames=('TK', 'TL', 'TC1', 'TC2')) -> Iterator[Config]:
+    """Limited types declared in unusual-but-legal ways (never cached *and* limited; the single-call
+    decorator spelling; two types whose decorator arguments are identical down to the cache
+    object), all nodes requested, with and without empty polls."""
+    for n in range(2, nmax + 1):
+        for shape in all_shapes(n):
+            if sum(len(d) for d in shape) > 1:
+                continue            # mostly independent tasks: that is where limits bite
+            for types in itertools.product(tnames, repeat=n):
+                spec = mk_spec(shape, types=types)
+                req = tuple((i, False) for i in range(n))
+                for st in (False, True):
+                    yield Config(spec=spec, requested=req, batch=batch, stutter=st)
+
+
+def fam_limits_warm(nmax: int = 3, *, batch: int = 2, tnames=('TB', 'TC')) -> Iterator[Config]:
+    """Limited types against a warm cache, with and without bust_cache (loads and re-executions
+    count towards the limit like any other execution)."""
+    for n in range(2, nmax + 1):
+        for shape in all_shapes(n):
+            if any(shape):
+                continue
+            for types in itertools.product(tnames, repeat=n):
+                spec = mk_spec(shape, types=types)
+                req = tuple((i, False) for i in range(n))
+                for pre in (tuple(range(n)), tuple(range(n - 1))):
+                    for b in (False, True):
+                        yield Config(spec=spec, requested=req, precached=pre, batch=batch, bust_cache=b, stutter=True)
+
+
+def fam_types3(tnames=('TA', 'TN'), *, batch: int = 2) -> Iterator[Config]:
+    """n = 3: every shape x every assignment of the given types (several distinct never-cached
+    dependencies of one task, in particular), sinks requested."""
+    for shape in all_shapes(3):
+        if not any(shape):
+            continue
+        for types in itertools.product(tnames, repeat=3):
+            if len(set(types)) == 1 and types[0] == 'TA':
+                continue
+            spec = mk_spec(shape, types=types)
+            yield Config(spec=spec, requested=((2, False),), batch=batch)
+            yield Config(spec=spec, requested=tuple((i, False) for i in range(3)), batch=batch)
+
+
 def fam_e3(bases: Iterable[Config], *, backends=('fork', 'spawn'), workers=(1, 2, None), cpu_count: int = 2,
-           die_exit0=(False,), liveness: bool = True, monitor: bool = False):
+           die_exit0=(False,), liveness: bool = True, monitor: bool = False, linger: bool = False):
     """Real ProcessRunner configurations over the virtual OS for the given base configurations."""
     from .e3 import E3Config
     for b in bases:
@@ -163,6 +210,12 @@ def fam_e3(bases: Iterable[Config], *, backends=('fork', 'spawn'), workers=(1, 2
                         continue
                     yield E3Config(base=b, backend=be, max_workers=mw, cpu_count=cpu_count, die_exit0=dx,
                                    liveness_choice=liveness, monitor=monitor)
+                    if linger:
+                        # each single node in turn leaves its worker process behind (it never exits)
+                        for i in range(b.spec.n):
+                            if i not in b.died:
+                                yield E3Config(base=b, backend=be, max_workers=mw, cpu_count=cpu_count, die_exit0=dx,
+                                               liveness_choice=liveness, monitor=monitor, linger=(i,))
 
 
 def fam_real(bases: Iterable[Config], *, backends=('fork', 'spawn'), workers=(2,)):
